@@ -1,8 +1,16 @@
-//! Runs the request lines of domain `buffer` (the same runner and property oracle as the native
-//! harness, `harness/src/d_buffer.rs`) under Miri and compares every output line with the line the
-//! Lean model produced.  Usage: tw-harness-miri <requests> <model-outputs>
+//! Runs request lines of a byte-level harness domain (the same runners and property oracles as the
+//! native harness: `harness/src/d_buffer.rs`, `d_packer.rs`, `d_huffman.rs`, `d_packet6.rs`) under
+//! Miri and compares every output line with the line the Lean model produced.
+//! Usage: tw-harness-miri <domain> <requests> <model-outputs>
+#![allow(dead_code)]
 #[path = "../../harness/src/d_buffer.rs"]
 mod d_buffer;
+#[path = "../../harness/src/d_huffman.rs"]
+mod d_huffman;
+#[path = "../../harness/src/d_packer.rs"]
+mod d_packer;
+#[path = "../../harness/src/d_packet6.rs"]
+mod d_packet6;
 #[path = "../../harness/src/util.rs"]
 mod util;
 
@@ -11,15 +19,21 @@ use std::io::BufRead;
 fn main() {
     util::install_panic_hook();
     let args: Vec<String> = std::env::args().collect();
-    let req = std::io::BufReader::new(std::fs::File::open(&args[1]).expect("requests"));
-    let exp: Vec<String> = std::io::BufReader::new(std::fs::File::open(&args[2]).expect("model outputs"))
+    let d = match &args[1][..] {
+        "buffer" => d_buffer::domain(),
+        "packer" => d_packer::domain(),
+        "huffman" => d_huffman::domain(),
+        "packet6" => d_packet6::domain(),
+        x => panic!("unknown domain {}", x),
+    };
+    let req = std::io::BufReader::new(std::fs::File::open(&args[2]).expect("requests"));
+    let exp: Vec<String> = std::io::BufReader::new(std::fs::File::open(&args[3]).expect("model outputs"))
         .lines()
         .map(|l| l.unwrap())
         .collect();
-    let d = d_buffer::domain();
     let mut runner = d.runner();
     let mut oracle = util::Oracle::new();
-    let (mut n, mut diffs) = (0usize, 0usize);
+    let (mut n, mut diffs, mut panics) = (0usize, 0usize, 0usize);
     for (i, line) in req.lines().enumerate() {
         let line = line.unwrap();
         let toks: Vec<&str> = line.split_ascii_whitespace().collect();
@@ -27,7 +41,14 @@ fn main() {
             continue;
         }
         oracle.line_no = i + 1;
-        let out = runner.run(&toks, &mut oracle);
+        // as the native harness does: a panic of the implementation is the outcome `panic`
+        let out = match util::catch(|| runner.run(&toks, &mut oracle)) {
+            Ok(o) => o,
+            Err(_) => {
+                panics += 1;
+                "panic".to_string()
+            }
+        };
         if exp.get(n).map(|e| e != &out).unwrap_or(true) {
             diffs += 1;
             println!("DIFF line {}: `{}` impl `{}` model `{}`", i + 1, line, out, exp.get(n).map(|s| &s[..]).unwrap_or("?"));
@@ -40,16 +61,17 @@ fn main() {
     }
     let c = |k: &str| oracle.counters.get(k).cloned().unwrap_or(0);
     println!(
-        "MIRI-SUMMARY requests={} disagreements={} oracle_fails={} sessions={} views={} releases={} panics_unwound={} reads={} sessions_swept={}",
+        "MIRI-SUMMARY domain={} requests={} disagreements={} oracle_fails={} caught_panics={} sessions={} views={} releases={} panics_unwound={} reads={}",
+        args[1],
         n,
         diffs,
         oracle.fails.len(),
-        c("sessions_vec") + c("sessions_arr") + c("sessions_slice") + c("sessions_sref"),
+        panics,
+        c("sessions_vec") + c("sessions_arr") + c("sessions_slice") + c("sessions_sref") + c("sessions_raw"),
         c("views_depth_1") + c("views_depth_2") + c("views_depth_3") + c("views_depth_4"),
         c("releases"),
         c("panics"),
         c("reads_ok") + c("reads_err"),
-        c("sessions_swept"),
     );
     std::process::exit(if diffs == 0 && oracle.fails.is_empty() { 0 } else { 1 });
 }
